@@ -66,12 +66,18 @@ def aggregate (f : Function) (rows : List Memo) (key : Str) : Str × Bool :=
     else (['?'], false)
   | _ => ([], true)
 
-/-- GROUP BY: rows partitioned by the values of the grouping columns, groups in first-occurrence order
-    (the Rust uses a HashMap: the order of groups is unspecified and compared as a multiset) -/
+/-- grouping key of a buffered row: the values of the grouping columns (missing ⇒ empty text) -/
+def keyOf (keys : List Str) (r : Memo) : List Str := keys.map fun f => (r.get? f).getD []
+
+/-- add one row to the partition (groups in first-occurrence order) -/
+def addRow (keys : List Str) (acc : List (List Str × List Memo)) (r : Memo) : List (List Str × List Memo) :=
+  if acc.any (·.1 == keyOf keys r) then
+    acc.map (fun g => if g.1 == keyOf keys r then (g.1, g.2 ++ [r]) else g)
+  else acc ++ [(keyOf keys r, [r])]
+
+/-- GROUP BY (`partition_output_buffer`).  The Rust uses a HashMap: the order of groups is unspecified
+    (compared as a multiset by the harness); the model keeps first-occurrence order. -/
 def partitionRows (keys : List Str) (rows : List Memo) : List (List Str × List Memo) :=
-  rows.foldl (fun (acc : List (List Str × List Memo)) r =>
-    let k := keys.map fun f => (r.get? f).getD []
-    if acc.any (·.1 == k) then acc.map (fun (k', rs) => if k' == k then (k', rs ++ [r]) else (k', rs))
-    else acc ++ [(k, [r])]) []
+  rows.foldl (addRow keys) []
 
 end Fsel
